@@ -144,4 +144,50 @@ AlgoCoverFold(rest, cover) ==
 AlgoDedupKeptIds(all) ==
     UNION { { k.id : k \in AlgoCoverFold({ b \in all : b.grp = g }, {}) } : g \in { b.grp : b \in all } }
 
+(***************************************************************************)
+(* ------------------------- C33, property level ------------------------- *)
+(* "If reading any block's metadata or markers fails in a sync, the        *)
+(*  compactor neither compacts, marks nor deletes any block in that        *)
+(*  iteration."                                                            *)
+(* Events: Iter (a compactor iteration begins), SyncBegin / SyncEnd (one   *)
+(* sync of the block view), ReadFail (a bucket read failed; insync = it    *)
+(* happened inside a sync), Mut (a mutating bucket call; ok = it changed   *)
+(* the bucket).  dirty = a read failed in the latest sync and no new sync  *)
+(* or iteration has begun since.  Weakest reading: a later sync that       *)
+(* starts afresh (or the next iteration) lifts the ban.                    *)
+(***************************************************************************)
+C33_DirtyAfter(dirty, e) ==
+    CASE e.ev = "Iter" \/ e.ev = "SyncBegin" -> FALSE
+      [] e.ev = "ReadFail" -> (dirty \/ e.insync)
+      [] OTHER -> dirty
+C33_Forbidden(dirty, e) == dirty /\ e.ev = "Mut" /\ e.ok
+
+(***************************************************************************)
+(* ------------------------- C32, property level ------------------------- *)
+(* Times are integer milliseconds.  A block holds samples in               *)
+(* [MinTime, MaxTime), so its newest possible sample is at MaxTime - 1.    *)
+(* "Retention marks a block for deletion only when its newest sample is    *)
+(*  older than the retention configured for its resolution": with age =    *)
+(* now - MaxTime, the newest sample is older than ret iff age + 1 > ret;   *)
+(* ret = 0 means retention is disabled for that resolution (never mark).   *)
+(***************************************************************************)
+C32_RetentionMayMark(age, ret) == ret > 0 /\ age + 1 > ret
+(* "the cleaner removes only blocks whose deletion mark is older than the delete delay": markAge = now minus the   *)
+(* (second-granular) DeletionTime the mark records, in ms (weakest reading, DESIGN 2.2)                           *)
+C32_CleanerMayDelete(markAge, delay) == markAge > delay
+(* "partial uploads are removed only after they have been untouched for the abort threshold and only if they are   *)
+(*  not already scheduled for deletion": untouched = time since the newest modification of any of its objects       *)
+C32_PartialMayRemove(untouched, threshold, marked) == untouched >= threshold /\ ~marked
+
+(* ------------------------ C32, algorithm level -------------------------- *)
+(* retention.go (after the fix of the second-truncation): now.After(MaxTime + ret), ret.Seconds() = 0 skips        *)
+AlgoRetentionMarks(age, ret) == ret # 0 /\ age > ret
+(* retention.go before the fix: MaxTime truncated to whole seconds (sec = ms per second); kept for the record and   *)
+(* for the non-vacuity check of the model: maxT, now absolute                                                      *)
+AlgoRetentionMarksTruncating(now, maxT, ret, sec) == ret # 0 /\ now > (maxT \div sec) * sec + ret
+(* blocks_cleaner.go: time.Since(time.Unix(DeletionTime, 0)).Seconds() > deleteDelay.Seconds() *)
+AlgoCleanerDeletes(markAge, delay) == markAge > delay
+(* clean.go: skip when marked; skip when time.Since(lastModified) <= PartialUploadThresholdAge *)
+AlgoPartialRemoves(untouched, threshold, marked) == ~marked /\ untouched > threshold
+
 =============================================================================
